@@ -138,6 +138,7 @@ func (m *Mutex) Unlock() {
 	}
 	// Leaving a critical section is a point at which a real scheduler may switch goroutines.
 	if ct != nil && ct.state == tsRunning {
+		s.maybeStall(ct)
 		s.park(ct, "unlocked")
 	}
 }
